@@ -76,13 +76,13 @@ def c13(tier, seed):
             if changed[0]:
                 D.meta['mislabelled'] = changed[0]
                 ex.res.count('cases_with_labels_above_the_level', 1)
+        quoted = ex.rng.random() < 0.5          # every label in single quotes: the same tree for every route
         base = load_or_fail(ex, cid, D)
         if base is None:
             continue
         ref, allp = canon_analysis(base)
         pairs = allp if len(allp) <= 12 else ex.rng.sample(allp, 12)
         ref, _ = canon_analysis(base, pairs)
-        quoted = ex.rng.random() < 0.5          # every label in single quotes: the same tree for every route
         ex.res.count('newick_labels_quoted' if quoted else 'newick_labels_plain')
         nwk = core.nwk_of(D, quoted=quoted); nwk_noint = core.nwk_of(D, with_internal=False, quoted=quoted)
         xml_lines = gen.orthoxml(D.species, D.groups, newlines=True)
@@ -322,9 +322,40 @@ def c14(tier, seed):
                 ref_f = filtered_canon(D); ex.res.count('filtered_loads_of_rewritings')
             except Exception as e:      # noqa
                 ex.fail(cid, D, ['filtered load (external id %r) raised %s' % (fval, type(e).__name__)])
+        # ... and a load filtered by a top-level id: group ids are free labels, so a rewriting may give nested groups of OTHER
+        # families the very label that is queried -- the selection is still the one family (r9-C14b)
+        tids14 = [t for _, _, t in D.families]
+        qtid = ex.rng.choice(tids14) if tids14 and all(t is not None for t in tids14) and len(set(tids14)) == len(tids14) else None
+        def relabel_nested(e_, newid, top=True):
+            if e_[0] == 'og':
+                return ('og', e_[1] if top else newid, e_[2], [relabel_nested(x_, newid, False) for x_ in e_[3]])
+            if e_[0] == 'pg':
+                return ('pg', e_[1], [relabel_nested(x_, newid, False) for x_ in e_[2]])
+            return e_
+        def hogid_canon(E_, rewritten):
+            E2_ = copy_dataset(E_)
+            if rewritten:
+                E2_.groups = [(('og', 'T-' + g_[1], g_[2], g_[3]) if g_[1] == qtid else relabel_nested(('og', 'T-' + g_[1], g_[2], g_[3]), 'T-' + qtid))
+                              if g_[0] == 'og' else g_ for g_ in E_.groups]
+            f_ = pyham.ParserFilter(); f_.add_hogs_via_hogId([('T-' + qtid) if rewritten else qtid])
+            c_, _ = canon_analysis(core.load_py(E2_, filter_object=f_), [], with_profiles=False)
+            return dict(forest=c_['forest'], members=sorted(x.split('=', 1)[1] for x in c_['members']), genes=c_['genes'])
+        ref_h = None
+        if qtid is not None:
+            try:
+                ref_h = hogid_canon(D, False)
+            except Exception as e:      # noqa
+                ex.fail(cid, D, ['load filtered by the family id %r raised %s' % (qtid, type(e).__name__)])
         for j in range(4 if tier == 'quick' else 6):
             E = rewrite_dataset(ex.rng, D)
             ex.res.count('rewritings')
+            if ref_h is not None and j == 2 and all(g_[0] != 'og' or g_[1] is not None for g_ in E.groups) and sorted(g_[1] for g_ in E.groups if g_[0] == 'og') == sorted(tids14):
+                try:
+                    kh = first_diff(ref_h, hogid_canon(E, True)); ex.res.count('rewritings_loaded_through_a_family_id_filter')
+                    if kh:
+                        ex.fail(cid + '-r%dh' % j, E, ['relabelling group ids (nested groups of other families carry the queried label) changes %s of the load filtered by family id %r' % (kh, qtid)])
+                except Exception as e:      # noqa
+                    ex.fail(cid + '-r%dh' % j, E, ['load of a relabelled rewriting filtered by family id raised %s: %s' % (type(e).__name__, e)])
             if ref_f is not None and j < 2:
                 try:
                     kf = first_diff(ref_f, filtered_canon(E))
@@ -437,6 +468,19 @@ def c15(tier, seed):
                 bad.append('%s%r raised %s' % (fn.__name__, a, type(e).__name__))
         try:
             decl = core.declared_map(D)
+            # keys that are EQUAL to an integer id for Python (1 == 1.0 == True, same hash) but are written differently are
+            # unknown keys ('1.0', 'True' are not ids of this file) -- asked first, before any integer lookup (r9-C15b: a memo
+            # of string forms keyed by the query object)
+            gids_ = set(g_.unique_id for g_ in h.get_list_extant_genes())
+            tids_ = set(str(t_) for t_ in h.get_dict_top_level_hogs())
+            for x_ in sorted(gids_ | tids_):
+                if x_.isdigit() and str(int(x_)) == x_ and len(x_) < 6:
+                    for alt_ in ([float(int(x_))] + ([bool(int(x_))] if int(x_) in (0, 1) else [])):
+                        if str(alt_) not in gids_:
+                            expect_key(h.get_gene_by_id, alt_)
+                        if str(alt_) not in tids_:
+                            expect_key(h.get_hog_by_id, alt_)
+                        ex.res.count('lookups_by_equal_but_differently_written_keys')
             for g in h.get_list_extant_genes():
                 if h.get_gene_by_id(g.unique_id) is not g:
                     bad.append('get_gene_by_id(%r)' % g.unique_id)
@@ -727,6 +771,19 @@ def c18(tier, seed):
             in_ = [p for p in gen.paths(T) if gen.sub(T, p)[1]]
             T = rename_at(T, ex.rng.choice(lv_), gen.sub(T, ex.rng.choice(in_))[0])
             ex.res.count('trees_leaf_named_like_a_clade')
+        if naming == 'synth' and ex.rng.random() < 0.12:
+            # a single-child level directly above a leaf (a genus holding one sampled species, '((CANFA)Canis,FELCA)'): legal with
+            # synthesised names too -- the level is called like its only leaf, and it is a level (depth, path queries, Newick)
+            lv_ = [p for p in gen.paths(T) if not gen.sub(T, p)[1] and p]
+            if lv_:
+                pl_ = ex.rng.choice(lv_)
+                def wrap_(t, p):
+                    if not p:
+                        return ('U' + t[0].replace(' ', ''), (t,))
+                    ks = list(t[1]); ks[p[0]] = wrap_(ks[p[0]], p[1:])
+                    return (t[0], tuple(ks))
+                T = wrap_(T, pl_)
+                ex.res.count('trees_single_child_level_above_a_leaf_synth')
         lengths = ex.rng.random() < 0.4
         support = naming == 'synth' and ex.rng.random() < 0.3
         internal = naming == 'own' or (not support and ex.rng.random() < 0.5)
@@ -745,6 +802,16 @@ def c18(tier, seed):
             tx = pyham.taxonomy.Taxonomy(nwk, tree_format='newick_string', use_internal_name=(naming == 'own'))
         except Exception as e:      # noqa
             ex.fail(cid, D, ['Taxonomy(%r) raised %s: %s' % (nwk, type(e).__name__, e)])
+            continue
+        try:
+            # (a taxonomy whose topology is not the input's cannot be addressed by the input's paths)
+            for nd in tx.tree.traverse():
+                gen.sub(T, pathof(nd))
+            if sum(1 for _ in tx.tree.traverse()) != len(list(gen.paths(T))):
+                raise IndexError
+        except IndexError:
+            ex.fail(cid, D, ['the taxonomy built from %r does not have the topology of the input tree: %s' % (nwk, tx.tree.write(format=9))],
+                    call='Taxonomy(%r, use_internal_name=%s)' % (nwk, naming == 'own'))
             continue
         for nd in tx.tree.traverse():
             p = pathof(nd)
@@ -794,6 +861,29 @@ def c18(tier, seed):
                             bad.append('PhyloXML route: get_newick_from_tree(%s) = %r, expected %r' % (taxS(p_), got_, want_))
             except Exception as e:      # noqa
                 bad.append('PhyloXML route raised %s: %s' % (type(e).__name__, e))
+            # ... and the taxonomy of an ANALYSIS built on that file still is this tree after read-only reporting calls
+            # (per-family profiles re-read the PhyloXML file; r9-C18a: a cached parse handed out instead of a copy)
+            names_ = [gen.display_name(T, p_, naming) for p_ in gen.paths(T)]
+            if not gen.has_unary(T) and len(names_) >= 4 and len(set(names_)) == len(names_):      # (a species named like a clade cannot be declared)
+                try:
+                    Dh = gen.make_dataset(ex.rng, T=T, naming=naming, nfam=3, P=dict(species_split=0.0, dbsplit=0.0, late_species=0.0, latin1=0.0, unnamed_root=0.0))
+                    hh = core.load_py(Dh, phyloxml_dir=ex.tmp)
+                    subs_ = [x for t_ in hh.get_list_top_level_hogs() for x in all_nodes(t_) if isinstance(x, ag.HOG) and x.genome.taxon.up is not None]
+                    for x in ex.rng.sample(subs_, min(3, len(subs_))):
+                        hh.create_tree_profile(hog=x)
+                    hh.create_tree_profile()
+                    ex.res.count('taxonomy_reinspected_after_profiles')
+                    seen_ = 0
+                    for nd in hh.taxonomy.tree.traverse():
+                        p_ = pathof(nd); seen_ += 1
+                        if nd.name != gen.display_name(T, p_, naming) or nd.depth != len(p_):
+                            bad.append('after tree profiles: name / depth of %s is %r / %r' % (taxS(p_), nd.name, nd.depth))
+                    if seen_ != len(list(gen.paths(T))):
+                        bad.append('after tree profiles the species tree of the analysis has %d nodes, the input tree %d' % (seen_, len(list(gen.paths(T)))))
+                    if hh.taxonomy.get_newick_from_tree(hh.taxonomy.tree) != gen.newick_named(T, (), naming) + ';':
+                        bad.append('after tree profiles: Newick of the root is %r' % hh.taxonomy.get_newick_from_tree(hh.taxonomy.tree))
+                except Exception as e:      # noqa
+                    bad.append('analysis on the PhyloXML tree + profiles raised %s: %s' % (type(e).__name__, e))
         # the stored Newick re-parses to the same named topology
         def named(T, p=()):
             t = gen.sub(T, p)
